@@ -303,8 +303,13 @@ def add_hasattr_axioms(I, t, name):
     protos = dict(_PROTO)
     protos.update({"Fraction": fractions.Fraction(1), "Decimal": decimal.Decimal(1),
                    "date": datetime.date(2000, 1, 1), "datetime": datetime.datetime(2000, 1, 1),
-                   "function": (lambda: 0), "type": object})
+                   "function": (lambda: 0), "type": object, "Undefined": object()})
     f = hasattr_fn(name)
+    key = ("hasattr", name, t.get_id())
+    if key in I.U._misc_done:
+        return
+    I.U._misc_done.add(key)
+    I.U._wt_keep.append(t)
     for tn, proto in protos.items():
         I.U.axioms.append(z3.Implies(vm.ty(t) == vm.TAG[tn], f(t) == hasattr(proto, name)))
 
